@@ -32,17 +32,33 @@ Definition agree (r : res (list ind)) (obs : outcome) : bool :=
   | _, _ => false
   end.
 
-Definition check (c : case) : bool :=
+(* the runner, parameterised by the eleven operators (all in the monad; selBest / selWorst draw nothing):
+   `check` runs the hand model, `check_gen` (defined at the end of the regenerated coq/Gen/C06_gen.v)
+   the definitions regenerated from the source text on this run *)
+Definition check_with
+    (fRandom fBest fWorst : list ind -> nat -> M (list ind))
+    (fTourn : list ind -> nat -> nat -> M (list ind))
+    (fRoulette fSUS : list Q -> list ind -> nat -> M (list ind))
+    (fDouble : list ind -> nat -> nat -> Q -> bool -> M (list ind))
+    (fLex : list Q -> list ind -> nat -> M (list ind))
+    (fEps : list Q -> list ind -> nat -> Q -> M (list ind))
+    (fAuto : list Q -> list ind -> nat -> M (list ind))
+    (fDCD : list ind -> nat -> M (list ind)) (c : case) : bool :=
   match c with
-  | CRandom inds k ds obs => agree (selRandom inds k ds) obs
-  | CBest inds k obs => agree (Ok (selBest inds k) []) obs
-  | CWorst inds k obs => agree (Ok (selWorst inds k) []) obs
-  | CTourn inds k ts ds obs => agree (selTournament inds k ts ds) obs
-  | CRoulette w inds k ds obs => agree (selRoulette w inds k ds) obs
-  | CDouble inds k fs ps ff ds obs => agree (selDoubleTournament inds k fs ps ff ds) obs
-  | CSUS w inds k ds obs => agree (selSUS w inds k ds) obs
-  | CLex w inds k ds obs => agree (selLexicase w inds k ds) obs
-  | CEps w inds k eps ds obs => agree (selEpsilonLexicase w inds k eps ds) obs
-  | CAuto w inds k ds obs => agree (selAutomaticEpsilonLexicase w inds k ds) obs
-  | CDCD inds k ds obs => agree (selTournamentDCD inds k ds) obs
+  | CRandom inds k ds obs => agree (fRandom inds k ds) obs
+  | CBest inds k obs => agree (fBest inds k []) obs
+  | CWorst inds k obs => agree (fWorst inds k []) obs
+  | CTourn inds k ts ds obs => agree (fTourn inds k ts ds) obs
+  | CRoulette w inds k ds obs => agree (fRoulette w inds k ds) obs
+  | CDouble inds k fs ps ff ds obs => agree (fDouble inds k fs ps ff ds) obs
+  | CSUS w inds k ds obs => agree (fSUS w inds k ds) obs
+  | CLex w inds k ds obs => agree (fLex w inds k ds) obs
+  | CEps w inds k eps ds obs => agree (fEps w inds k eps ds) obs
+  | CAuto w inds k ds obs => agree (fAuto w inds k ds) obs
+  | CDCD inds k ds obs => agree (fDCD inds k ds) obs
   end.
+
+Definition check : case -> bool :=
+  check_with selRandom (fun inds k => ret (selBest inds k)) (fun inds k => ret (selWorst inds k))
+             selTournament selRoulette selSUS selDoubleTournament
+             selLexicase selEpsilonLexicase selAutomaticEpsilonLexicase selTournamentDCD.
